@@ -54,6 +54,7 @@ let tok_of_out (o : mout out) : string =
   | OCore (_, Bye c) -> Printf.sprintf "bye:%d" (int_of_n c)
   | OCore (_, Noc (name, o, nw)) -> Printf.sprintf "noc:%d:%s:%d" (int_of_n o) (hex_of_bytes name) (int_of_n nw)
   | OCore (_, NoReply (c, sr)) -> Printf.sprintf "noreply:%d:%d" (int_of_n c) (int_of_n sr)
+  | OCore (_, Refused (c, sr)) -> Printf.sprintf "limit:%d:%d" (int_of_n c) (int_of_n sr)
   | OGone c -> Printf.sprintf "gone:%d" (int_of_n c)
   | ORefused c -> Printf.sprintf "refused:%d" (int_of_n c)
 
@@ -92,6 +93,17 @@ let () =
     let cf = { max_incomplete = n_of_int (int_of_string mi); auth_timeout = n_of_int (int_of_string at);
                max_message_size = n_of_int (int_of_string mm) } in
     let res = mini_env_run (n_of_int (int_of_string uid)) cf (List.map cevent_of_tok evs) in
+    String.concat " ; " (List.map (fun g ->
+      if g = [] then "-" else
+        String.concat " " (List.map (fun (e, os) -> String.concat " " (tag_of_event e :: List.map tok_of_out os)) g)) res))
+
+(* script2 <uid> <max_incomplete> <auth_timeout_ms> <max_message_size> <max_connections_per_user> <max_match_rules_per_connection> CEV...
+   same as script, with the two limits of the core given *)
+let () =
+  reg "script2" (fun (uid :: mi :: at :: mm :: mu :: mr :: evs) ->
+    let cf = { max_incomplete = n_of_int (int_of_string mi); auth_timeout = n_of_int (int_of_string at);
+               max_message_size = n_of_int (int_of_string mm) } in
+    let res = mini_env_run_lim (n_of_int (int_of_string uid)) cf (n_of_int (int_of_string mu)) (n_of_int (int_of_string mr)) (List.map cevent_of_tok evs) in
     String.concat " ; " (List.map (fun g ->
       if g = [] then "-" else
         String.concat " " (List.map (fun (e, os) -> String.concat " " (tag_of_event e :: List.map tok_of_out os)) g)) res))
